@@ -153,7 +153,7 @@ theorem good_qau (hP : P.Wire) (w : World) (p : PGhost ι) (hg : Good P hf w p) 
           rw [← hnoop]
           rw [hnoop]
           have hgood := good_insert P hf hP w p hg v f i hv hi hro' x h hh f.nbs f.dirty none
-            (by intro hp _; have := hok.k1 hp; omega) (by intro m _ hp _; have := hok.k1 hp; omega)
+            (by intro hp _; have := (hok.k1 hp).1; omega) (by intro m _ hp _; have := (hok.k1 hp).1; omega)
           rw [hnoop] at hgood
           exact hgood
         · simp only [hk, Bool.false_eq_true, if_false, Fix.fixed, Bool.true_and]
